@@ -25,7 +25,7 @@ use datafusion::arrow::datatypes::{DataType, Field, Schema};
 use datafusion::common::tree_node::{Transformed, TreeNode, TreeNodeRecursion};
 use datafusion::common::{Column, DFSchema, Result as DFResult, ScalarValue, Spans, TableReference};
 use datafusion::logical_expr::expr::{
-    AggregateFunction, Alias, Between, BinaryExpr, Case, Cast, Exists, GroupingSet, HigherOrderFunction, InList, InSubquery, Lambda, LambdaVariable, Like, Placeholder, ScalarFunction,
+    AggregateFunction, Alias, Between, BinaryExpr, Case as CaseWhen, Cast, Exists, GroupingSet, HigherOrderFunction, InList, InSubquery, Lambda, LambdaVariable, Like, Placeholder, ScalarFunction,
     SetComparison, SetQuantifier, Sort as SortExpr, TryCast, Unnest as UnnestExpr, WindowFunction, WindowFunctionDefinition, WindowFunctionParams,
 };
 use datafusion::logical_expr::logical_plan::builder::LogicalTableSource;
@@ -310,7 +310,7 @@ fn e_make(kind: &str, id: u32, label: u32, kids: &mut Vec<Expr>) -> Result<Expr,
                 wt.push((w, t));
             }
             let e = if els { Some(one()) } else { None };
-            Expr::Case(Case::new(b, wt, e))
+            Expr::Case(CaseWhen::new(b, wt, e))
         }
         "InList" => {
             need(k >= 1)?;
@@ -537,7 +537,10 @@ fn l_meta(kind: &str) -> (bool, bool) {
 /// kinds without / with subquery-bearing variants
 pub fn l_kinds(k: usize, ws: bool) -> Vec<&'static str> {
     let mut v: Vec<&'static str> = match k {
-        0 => vec!["Empty", "Empty", "Values", "Scan", "Ext"],
+        // (EmptyRelation is not generated: its only attribute is the schema, and derived schemas of
+        // parents are documented NOT to follow child rewrites — all generated nodes have empty or
+        // expression-derived schemas so that a rebuilt tree compares equal)
+        0 => vec!["Values", "Values", "Values", "Scan", "Ext"],
         1 => vec!["Filter", "Limit", "Sort", "Proj", "Alias", "Distinct", "Repart", "Sq", "Agg", "Window", "Prepare", "View", "MemTable", "Ext", "Union"],
         2 => vec!["Join", "Join", "Recursive", "Union", "Ext"],
         _ => vec!["Union", "Ext"],
@@ -854,7 +857,7 @@ pub struct L;
 impl Family for L {
     type Node = LogicalPlan;
     const NAME: &'static str = "LogicalPlan";
-    const LEAF: &'static str = "Empty";
+    const LEAF: &'static str = "Values";
     const FRESH: &'static str = "Join";
     const WRAP: &'static str = "Limit";
     fn carries_id(kind: &str) -> bool {
@@ -894,7 +897,7 @@ pub struct LW;
 impl Family for LW {
     type Node = LogicalPlan;
     const NAME: &'static str = "LogicalPlan+subqueries";
-    const LEAF: &'static str = "Empty";
+    const LEAF: &'static str = "Values";
     const FRESH: &'static str = "Join";
     const WRAP: &'static str = "Limit";
     fn carries_id(kind: &str) -> bool {
@@ -924,6 +927,15 @@ impl Family for LW {
     fn api_name(api: Api) -> String {
         format!("{}_with_subqueries", api.name())
     }
+    fn absorbs_jump(kind: &str, nkids: usize, child: usize) -> Option<Vec<usize>> {
+        if child < l_nsub(kind, nkids) {
+            // the Jump is handed to the walk over the expression holding the subquery, which skips
+            // that expression's operands (and the subqueries nested in them)
+            Some(if kind == "FilterSqN" && child == 0 { vec![1] } else { vec![] })
+        } else {
+            None
+        }
+    }
     fn call(api: Api, n: LogicalPlan, drv: &mut Driver<Self>) -> DFResult<Actual<LogicalPlan>> {
         let of_t = |t: Transformed<LogicalPlan>| Actual { data: Some(t.data), transformed: t.transformed, rec: t.tnr, found: None };
         Ok(match api {
@@ -932,7 +944,7 @@ impl Family for LW {
                 Actual { data: None, transformed: false, rec, found: None }
             }
             Api::Visit => {
-                let mut v = visitor::<LW>(drv);
+                let mut v = Vis(drv);
                 let rec = n.visit_with_subqueries(&mut v)?;
                 Actual { data: None, transformed: false, rec, found: None }
             }
@@ -944,7 +956,7 @@ impl Family for LW {
                 of_t(n.transform_down_up_with_subqueries(|c| Ok(cell.borrow_mut().on_owned(Phase::Down, c)), |c| Ok(cell.borrow_mut().on_owned(Phase::Up, c)))?)
             }
             Api::Rewrite => {
-                let mut r = rewriter::<LW>(drv);
+                let mut r = Rew(drv);
                 of_t(n.rewrite_with_subqueries(&mut r)?)
             }
             Api::Exists | Api::MapChildren | Api::ApplyChildren => {
@@ -1099,7 +1111,14 @@ fn p_make(kind: &str, id: u32, label: u32, kids: &mut Vec<PExpr>) -> Result<PExp
         "InList" => {
             need(k >= 1)?;
             let e = it.next().unwrap();
-            Arc::new(pe::InListExpr::new(e, it.by_ref().collect(), false, None))
+            let list: Vec<PExpr> = it.by_ref().collect();
+            // `InListExpr::try_new` type-checks against a schema; build it over type-correct
+            // placeholders and put the real children in through `with_new_children` (which does not)
+            let ph: Vec<PExpr> = list.iter().map(|_| pe::lit(0i64)).collect();
+            let base = pe::in_list(pe::lit(0i64), ph, &false, &Schema::empty()).map_err(es)?;
+            let mut all = vec![e];
+            all.extend(list);
+            base.with_new_children(all).map_err(es)?
         }
         "Fn" => {
             let udf = marker_udf(id, label);
@@ -1229,37 +1248,8 @@ fn x_meta(kind: &str) -> (bool, bool) {
 pub fn x_kinds(k: usize) -> Vec<&'static str> {
     match k {
         0 => vec!["Empty"],
-        1 => vec!["GLimit", "LLimit", "Coalesce", "Repart", "Filter", "Proj", "Union"],
-        2 => vec!["Cross", "NLJ", "Union", "Cross"],
-        _ => vec!["Union"],
-    }
-}
-
-/// number of output columns of the plan built from `n`
-fn x_width(n: &RNode) -> usize {
-    match n.kind {
-        "Empty" | "Proj" => 1,
-        "Cross" | "NLJ" => n.kids.iter().map(x_width).sum(),
-        _ => n.kids.first().map(x_width).unwrap_or(1),
-    }
-}
-
-/// `UnionExec` needs inputs of equal width: make every input one column wide
-fn fix_union_inputs(n: &mut RNode) {
-    for k in &mut n.kids {
-        fix_union_inputs(k);
-    }
-    if n.kind == "Union" {
-        for k in &mut n.kids {
-            if x_width(k) != 1 {
-                if k.kids.len() == 1 {
-                    k.kind = "Proj";
-                } else {
-                    let old = std::mem::replace(k, RNode::new("Empty", 0, vec![]));
-                    *k = RNode::new("Proj", 0, vec![old]);
-                }
-            }
-        }
+        1 => vec!["GLimit", "LLimit", "Coalesce", "Repart", "Filter", "Proj"],
+        _ => vec!["Cross", "NLJ"],
     }
 }
 
@@ -1278,7 +1268,7 @@ fn x_make(kind: &str, id: u32, label: u32, kids: &mut Vec<Plan>) -> Result<Plan,
     Ok(match kind {
         "Empty" => {
             need(k == 0)?;
-            Arc::new(pp::empty::EmptyExec::new(Arc::new(Schema::new(vec![Field::new(mname(id, label), DataType::Int64, true)]))))
+            Arc::new(pp::empty::EmptyExec::new(Arc::new(Schema::new(vec![Field::new("a", DataType::Int64, true)]))).with_partitions(mv as usize + 1))
         }
         "GLimit" => {
             need(k == 1)?;
@@ -1303,7 +1293,7 @@ fn x_make(kind: &str, id: u32, label: u32, kids: &mut Vec<Plan>) -> Result<Plan,
         }
         "Proj" => {
             need(k == 1)?;
-            let e: Vec<(PExpr, String)> = vec![(pe::lit(mv), "p".to_string())];
+            let e: Vec<(PExpr, String)> = vec![(pe::lit(mv), "a".to_string())];
             Arc::new(pp::projection::ProjectionExec::try_new(e, it.next().unwrap()).map_err(es)?)
         }
         "Cross" => {
@@ -1333,7 +1323,9 @@ fn x_tag(p: &Plan) -> String {
     let num = |v: usize| Some(((v / 10) as u32, (v % 10) as u32));
     let a = p.as_ref() as &dyn std::any::Any;
     if a.is::<pp::empty::EmptyExec>() {
-        return t("Empty", p.schema().fields().first().and_then(|f| parse_name(f.name())));
+        use datafusion::physical_plan::ExecutionPlanProperties;
+        let n = p.output_partitioning().partition_count();
+        return t("Empty", if n >= 1 { num(n - 1) } else { None });
     }
     if let Some(x) = a.downcast_ref::<pp::limit::GlobalLimitExec>() {
         return t("GLimit", x.fetch().and_then(num));
@@ -1384,7 +1376,7 @@ impl Family for X {
     type Node = Plan;
     const NAME: &'static str = "ExecutionPlan";
     const LEAF: &'static str = "Empty";
-    const FRESH: &'static str = "Union";
+    const FRESH: &'static str = "Cross";
     const WRAP: &'static str = "GLimit";
     fn carries_id(kind: &str) -> bool {
         x_meta(kind).0
@@ -1452,16 +1444,21 @@ pub fn spec_for(fam: Fam, tree: &Shape) -> RNode {
         Fam::Logical => shape_to_spec(tree, MAX_NODES, &|k, _| l_kinds(k, false)),
         Fam::LogicalSubq => shape_to_spec(tree, MAX_NODES, &|k, _| l_kinds(k, true)),
         Fam::PhysExpr => shape_to_spec(tree, MAX_NODES, &|k, _| p_kinds(k)),
-        Fam::Exec => shape_to_spec(tree, MAX_NODES, &|k, _| x_kinds(k.min(4))),
+        // UnionExec re-wraps inputs whose schema differs (documented coercion), so physical plans
+        // are built from leaf / unary / binary operators only
+        Fam::Exec => shape_to_spec(&at_most_two(tree), MAX_NODES, &|k, _| x_kinds(k)),
     };
     match fam {
         Fam::LogicalSubq => fix_subquery_positions(&mut spec),
-        Fam::Exec => fix_union_inputs(&mut spec),
         _ => {}
     }
     let mut next = 0;
     spec.number(&mut next);
     spec
+}
+
+fn at_most_two(s: &Shape) -> Shape {
+    Shape { k: s.k, kids: s.kids.iter().take(2).map(at_most_two).collect() }
 }
 
 /// APIs without a subquery variant are mapped to recursive ones
